@@ -31,6 +31,7 @@ def main():
     ap.add_argument("--seeds", default="1,2,3")
     ap.add_argument("--thorough", action="store_true")
     ap.add_argument("--skip-confirm", action="store_true")
+    ap.add_argument("--via-worktree", action="store_true", help="run the checks against a scratch worktree with the patch (VERIF_REPO) instead of patching /repo itself")
     a = ap.parse_args()
     src = os.path.abspath(a.src)
     meta = json.load(open(os.path.join(src, "meta.json")))
@@ -109,28 +110,41 @@ def main():
     # our checks against /repo itself with the patch applied
     props = (a.props or meta.get("property", "")).split(",")
     checks = {}
-    st = subprocess.check_output(["git", "-C", "/repo", "status", "--porcelain"], text=True).strip()
-    if st:
-        raise SystemExit("/repo is not clean: " + st)
-    subprocess.check_call(["git", "-C", "/repo", "apply", patch])
+    cwt = "/tmp/wt-seedrun-" + a.name
+    base_env = dict(os.environ)
+    if a.via_worktree:
+        subprocess.run(["git", "-C", "/repo", "worktree", "remove", "--force", cwt], capture_output=True)
+        subprocess.check_call(["git", "-C", "/repo", "worktree", "add", "-q", "--detach", cwt, "HEAD"])
+        subprocess.check_call(["git", "apply", patch], cwd=cwt)
+        base_env["VERIF_REPO"] = cwt
+        conf["checks_run_via"] = "VERIF_REPO=<scratch worktree of /repo HEAD with the patch applied>"
+    else:
+        st = subprocess.check_output(["git", "-C", "/repo", "status", "--porcelain"], text=True).strip()
+        if st:
+            raise SystemExit("/repo is not clean: " + st)
+        subprocess.check_call(["git", "-C", "/repo", "apply", patch])
+        conf["checks_run_via"] = "git -C /repo apply; ./check; git -C /repo checkout -- ."
     try:
         for pid in props:
             res = []
             for seed in a.seeds.split(","):
-                env = dict(os.environ, VERIF_SEED=seed)
+                env = dict(base_env, VERIF_SEED=seed)
                 rc, out, secs = run(["./check", pid, "--tier", "quick", "--no-evidence"], ROOT, env=env, timeout=3600)
                 line = [l for l in out.splitlines() if "violated" in l or "VERIF-DEADLOCK" in l or "DATA RACE" in l][:1]
                 res.append({"tier": "quick", "seed": int(seed), "rc": rc, "s": round(secs), "first": (line[0][:400] if line else "")})
                 print(pid, "quick seed", seed, "rc", rc, "%.0fs" % secs, (line[0][:200] if line else ""))
             if a.thorough and not any(r["rc"] == 1 for r in res):
-                rc, out, secs = run(["./check", pid, "--tier", "thorough", "--no-evidence"], ROOT, env=dict(os.environ, VERIF_SEED="1"), timeout=7200)
+                rc, out, secs = run(["./check", pid, "--tier", "thorough", "--no-evidence"], ROOT, env=dict(base_env, VERIF_SEED="1"), timeout=7200)
                 line = [l for l in out.splitlines() if "violated" in l or "VERIF-DEADLOCK" in l or "DATA RACE" in l][:1]
                 res.append({"tier": "thorough", "seed": 1, "rc": rc, "s": round(secs), "first": (line[0][:400] if line else "")})
                 print(pid, "thorough rc", rc, "%.0fs" % secs)
             checks[pid] = res
     finally:
-        subprocess.check_call(["git", "-C", "/repo", "checkout", "--", "."])
-        subprocess.run(["git", "-C", "/repo", "clean", "-fdq"], capture_output=True)
+        if a.via_worktree:
+            subprocess.run(["git", "-C", "/repo", "worktree", "remove", "--force", cwt], capture_output=True)
+        else:
+            subprocess.check_call(["git", "-C", "/repo", "checkout", "--", "."])
+            subprocess.run(["git", "-C", "/repo", "clean", "-fdq"], capture_output=True)
     conf["checks"] = checks
     caught = {pid: ("quick %d/%d seeds" % (sum(1 for r in rs if r["tier"] == "quick" and r["rc"] == 1), sum(1 for r in rs if r["tier"] == "quick"))) +
               ("; thorough caught" if any(r["tier"] == "thorough" and r["rc"] == 1 for r in rs) else "") for pid, rs in checks.items()}
